@@ -10,6 +10,7 @@ from vlib.util import call, expect_eq
 from vlib.props.c05 import expected as addr_expected, judge as addr_judge, KINDS
 
 PROPERTY_ID = "C14"
+OPTIMIZED = ['watch-only']   # clauses run a second time under `python -O` (assert statements stripped)
 RULE = ("full wallet from a seed; export node at a generated path of depth 0..5 (hardened and normal mixed); the export "
         "string under each of the three public versions of the wallet's network (exhaustive per case; all six over a "
         "run); watch-only Base/Paper wallet built from it after the full wallet has been used in the same process; 1..3 "
